@@ -2,7 +2,7 @@
 //! normal build. Provides a shadow [`Instant`] whose clock can be driven by a test
 //! harness, and an event log of worker-internal scalars at their linearization points.
 
-use std::cell::Cell;
+use std::cell::{Cell, RefCell};
 use std::ops::Sub;
 use std::sync::atomic::{AtomicBool, Ordering};
 use std::sync::Mutex;
@@ -10,13 +10,14 @@ use std::thread::{self, ThreadId};
 use std::time::Duration;
 
 static SIMULATED: AtomicBool = AtomicBool::new(false);
-static EVENTS: Mutex<Vec<(ThreadId, Event)>> = Mutex::new(Vec::new());
+static OUTCOMES: Mutex<Vec<(ThreadId, bool)>> = Mutex::new(Vec::new());
 
 /// Start of every thread's simulated clock, far enough from zero for `now() - dur`.
 const EPOCH_NANOS: u128 = 1_000_000_000_000_000_000;
 
 thread_local! {
     static CLOCK: Cell<u128> = const { Cell::new(EPOCH_NANOS) };
+    static EVENTS: RefCell<Vec<Event>> = const { RefCell::new(Vec::new()) };
 }
 
 /// Worker-internal observation.
@@ -35,11 +36,6 @@ pub enum Event {
         /// `filled` (`send_file` only; `true` otherwise)
         filled: bool,
     },
-    /// Result of the transfer closure (`Ok` / `Err`), before it is printed.
-    Outcome {
-        /// `true` for `Ok`
-        ok: bool,
-    },
 }
 
 /// Switches every thread's [`Instant`] to its simulated per-thread clock.
@@ -54,7 +50,7 @@ pub fn advance(dur: Duration) {
 
 /// Records an event for the calling thread.
 pub fn record(event: Event) {
-    EVENTS.lock().unwrap().push((thread::current().id(), event));
+    EVENTS.with(|e| e.borrow_mut().push(event));
 }
 
 /// Records a [`Event::Snap`].
@@ -68,24 +64,22 @@ pub fn snap(sending: bool, block_number: u16, window_len: u16, retry_cnt: u32, f
     });
 }
 
-/// Records an [`Event::Outcome`].
+/// Records the result of the calling thread's transfer. It outlives the thread (the
+/// socket, and with it the harness's view of the thread, is gone by then).
 pub fn outcome(ok: bool) {
-    record(Event::Outcome { ok });
+    OUTCOMES.lock().unwrap().push((thread::current().id(), ok));
 }
 
-/// Removes and returns, in order, the events recorded by thread `id`.
-pub fn take(id: ThreadId) -> Vec<Event> {
-    let mut events = EVENTS.lock().unwrap();
-    let mut taken = Vec::new();
-    let mut i = 0;
-    while i < events.len() {
-        if events[i].0 == id {
-            taken.push(events.remove(i).1);
-        } else {
-            i += 1;
-        }
-    }
-    taken
+/// Removes and returns, in order, the events recorded by the calling thread.
+pub fn take() -> Vec<Event> {
+    EVENTS.with(|e| std::mem::take(&mut *e.borrow_mut()))
+}
+
+/// Removes and returns the outcome recorded by thread `id`, if any.
+pub fn take_outcome(id: ThreadId) -> Option<bool> {
+    let mut outcomes = OUTCOMES.lock().unwrap();
+    let at = outcomes.iter().position(|(tid, _)| *tid == id)?;
+    Some(outcomes.remove(at).1)
 }
 
 /// Stand-in for [`std::time::Instant`] with the three operations the worker uses.
